@@ -163,6 +163,33 @@ class Gen:
         self.a.write_conf()
         return "data lines of the configuration %s" % ("reversed" if self.a.data_reversed else "in the first order again")
 
+    def op_uuidoff(self):
+        """the disks stop / start reporting a UUID (commands run without / with --test-fake-uuid): without a UUID the recorded one
+        is kept as it is and inode numbers are not trusted; when a UUID appears where none was recorded they are not trusted either"""
+        self.a.nouuid = not getattr(self.a, "nouuid", False)
+        return "disks report %s" % ("no UUID" if self.a.nouuid else "their UUID again")
+
+    def op_swapinodes(self):
+        """two files with the same size and time stamp end up with each other's inode numbers while every path keeps its own bytes
+        (names exchanged, then the bytes exchanged in place)"""
+        st = self.recorded()
+        for d in self.rec.D:
+            fl = st["fs"][d]
+            pairs = [(x, y) for x in sorted(fl) for y in sorted(fl) if x < y and fl[x]["sz"] == fl[y]["sz"] and fl[x]["mt"] == fl[y]["mt"]
+                     and fl[x]["sz"] > 0 and fl[x]["b"] != fl[y]["b"]]
+            if pairs:
+                x, y = self.rng.choice(pairs)
+                px, py = self.a.path(int(d), x), self.a.path(int(d), y)
+                bx, by = open(px, "rb").read(), open(py, "rb").read()
+                stx = os.lstat(px)
+                os.rename(px, px + ".swap"); os.rename(py, px); os.rename(px + ".swap", py)
+                for p, b in ((px, bx), (py, by)):
+                    with open(p, "r+b") as f:
+                        f.write(b)
+                    os.utime(p, ns=(stx.st_mtime_ns, stx.st_mtime_ns))
+                return "%s/%s and %s get each other's inode numbers (bytes and stamps stay)" % (d, x, y)
+        return None
+
     def op_reinode(self):
         """a recorded file is replaced by a copy of itself (same bytes, same time stamp): only its inode is new (what a restore
         from a backup or a move through another file-system leaves)"""
@@ -646,7 +673,7 @@ class Gen:
                     ("lose_disk", 3), ("lose_parity", 3), ("sync", 14), ("check", 12), ("fix", 22), ("scrub", 14), ("diff", 1)],
         "rehash": [("add", 14), ("copy", 5), ("touch", 2), ("delete", 8), ("corrupt", 6), ("corrupt_parity", 2), ("lose_disk", 2),
                    ("sync", 20), ("check", 6), ("fix", 8), ("scrub", 12), ("diff", 2), ("rehashcmd", 10)],
-        "inodes": [("uuidswap", 3), ("add", 14), ("mv", 14), ("swapnames", 8), ("twin", 6), ("reinode", 6), ("samesize", 4), ("samesec", 3), ("touch", 3),
+        "inodes": [("uuidoff", 4), ("swapinodes", 5), ("uuidswap", 3), ("add", 14), ("mv", 14), ("swapnames", 8), ("twin", 6), ("reinode", 6), ("samesize", 4), ("samesec", 3), ("touch", 3),
                    ("delete", 6), ("restore", 3), ("sync", 20), ("diff", 8), ("check", 5), ("list", 2), ("fix", 7), ("corrupt", 3)],
         "detect": [("reinode", 2), ("touch", 3), ("rehashcmd", 2), ("add", 8), ("delete", 3), ("corrupt", 14), ("corrupt_burst", 10), ("corrupt_parity", 14), ("sync", 14),
                    ("check", 18), ("scrub", 14), ("fix", 6)],
@@ -908,7 +935,7 @@ class Gen:
             desc = getattr(self, "op_" + name)()
             if desc is None:
                 return
-            self.rec.env(desc, damage=name in ("corrupt", "corrupt_burst", "corrupt_parity", "lose_disk", "lose_parity"))
+            self.rec.env(desc, damage=name in ("corrupt", "corrupt_burst", "corrupt_parity", "lose_disk", "lose_parity", "swapinodes"))
         self.steps.append(desc)
 
     def run(self, n):
